@@ -182,6 +182,12 @@ def check(pid: str, tier: str, seed: int, replay_path: str = None) -> int:
         # (5) witnesses
         wlines, wstatus = run_witnesses(pid, kfs, wd)
         out_lines.extend(wlines)
+        # findings of other properties met while running the catalogue under this property (C15)
+        by_kf = {k["id"]: k for k in kfs}
+        for kid in sorted({f["finding"] for f in known}):
+            if by_kf[kid]["property"] != pid:
+                out_lines.append("KNOWN-FINDING: property=%s %s [%s, listed under %s]" % (
+                    pid, by_kf[kid]["what"], kid, by_kf[kid]["property"]))
         # report
         groups = {}
         for f in violations:
